@@ -314,4 +314,10 @@ func (t *Tunnel) Do(raw string) *Resp { return Exchange(t.tls, t.br, raw) }
 
 func (t *Tunnel) State() tls.ConnectionState { return t.tls.ConnectionState() }
 
-func (t *Tunnel) Close() { t.tls.Close(); t.conn.Close() }
+// Close does not wait for the peer to read the close_notify alert (crypto/tls would wait up to
+// five seconds on a synchronous pipe whose other end is busy writing).
+func (t *Tunnel) Close() {
+	t.conn.SetDeadline(time.Now().Add(50 * time.Millisecond))
+	t.tls.Close()
+	t.conn.Close()
+}
